@@ -36,6 +36,34 @@ fn alphabet() -> Vec<i32> {
     out
 }
 
+/// W plus finer neighbourhoods and non-power-of-two structure (thorough only)
+fn alphabet_ext(w: &[i32]) -> Vec<i32> {
+    let mut x: Vec<i64> = w.iter().map(|v| *v as i64).collect();
+    for k in 0..=31u32 {
+        let p = 1i64 << k;
+        for d in -3..=3i64 {
+            x.push(p + d);
+            x.push(-(p + d));
+        }
+        for m in [3i64, 5] {
+            x.push(m * p);
+            x.push(-m * p);
+            x.push(m * p - 1);
+            x.push(-(m * p) + 1);
+        }
+    }
+    x.extend([0x5555_5555, -0x5555_5555, 0x2AAA_AAAA, -0x2AAA_AAAA, 0x0000_5555, 0x5555_0000, 0x7FFF_0001, -0x7FFF_0001]);
+    x.extend([7, -7, 11, 13, 97, 251, 257, 65521, 65537, -65537, 46340, 46341, -46340, -46341, 0xB504, 0xB505]);
+    let mut out: Vec<i32> = x
+        .into_iter()
+        .filter(|v| *v >= i32::MIN as i64 && *v <= i32::MAX as i64)
+        .map(|v| v as i32)
+        .collect();
+    out.sort();
+    out.dedup();
+    out
+}
+
 /// round(num/den) half away from zero, exact
 fn div_round_haz(num: i128, den: i128) -> i128 {
     assert!(den != 0);
@@ -69,8 +97,20 @@ fn body(run: &Run, replay: Option<&Value>) {
     }
     let w = alphabet();
     run.bound("W_size", json!(w.len()));
-    binary_ops(run, &w);
+    // thorough: binary ops over the extended alphabet W+ (every 2^k +/- 0..=3, 3*2^k, 5*2^k, alternating-bit
+    // patterns and a few primes), ternary ops over W as before plus W+ thinned to keep the cube below 2*10^8
+    let wx = match run.tier {
+        Tier::Thorough => alphabet_ext(&w),
+        Tier::Quick => w.clone(),
+    };
+    run.bound("W_binary_size", json!(wx.len()));
+    binary_ops(run, &wx);
     ternary_ops(run, &w);
+    if run.tier == Tier::Thorough {
+        let thin: Vec<i32> = wx.iter().copied().filter(|v| !w.contains(v)).step_by(2).chain([i32::MIN, -1, 0, 1, i32::MAX]).collect();
+        run.bound("mul_div_ext_alphabet_size", json!(thin.len()));
+        ternary_over(run, &thin);
+    }
     small_types(run);
     unary32(run);
     ot_round(run);
@@ -349,12 +389,16 @@ fn ternary_ops(run: &Run, w: &[i32]) {
             .collect(),
     };
     run.bound("mul_div_alphabet_size", json!(sub.len()));
+    ternary_over(run, &sub);
+}
+
+fn ternary_over(run: &Run, sub: &[i32]) {
     let results: Vec<Local> = sub
         .par_iter()
         .map(|&a| {
             let mut l = Local { all: HashSet::new(), nontrivial: HashSet::new() };
-            for &b in &sub {
-                for &c in &sub {
+            for &b in sub {
+                for &c in sub {
                     check_ternary(run, a, b, c, &mut Some(&mut l));
                 }
             }
